@@ -323,7 +323,7 @@ impl<'a> Driver<'a> {
                 let now = self.exec.now();
                 self.model.set_now(now);
                 if self.check_clock {
-                    let want = self.clock_base + self.elapsed_ms / 1000;
+                    let want = self.clock_base.wrapping_add(self.elapsed_ms / 1000);
                     if now != want {
                         self.viol(
                             "C05",
